@@ -240,8 +240,31 @@ Theorem source_error_trailer_unpatched_refuted :
 Proof. exact source_error_trailer_accepted_unpatched. Qed.
 Print Assumptions source_error_trailer_unpatched_refuted.
 
-(* current tree (known finding c18-backup-busy-skips-cache): when the snapshotter stays busy
-   for all attempts Backup proceeds without the cache and the copy lacks acknowledged points *)
+(* A backup that starts while a background cache snapshot is in flight.  In the repaired
+   engine WriteSnapshot runs under Engine.snapshotMu, so the backup's own snapshot waits until
+   the one in flight (writing file [stem0]) is committed; Cache.Snapshot can then no longer
+   answer ErrSnapshotInProgress and CreateSnapshot's "proceeding without cache contents"
+   branch (oracle SnapBusy) is unreachable.  What the waiting backup archives restores to a
+   copy that answers every read as the source did when the backup was requested. *)
+Theorem backup_waits_for_snapshot_in_flight :
+  forall (stem0 stem : name) (now0 now : Z) (base : name) (s : shard),
+  let s0 := write_snapshot stem0 now0 s in
+  wf_files (sh_files (write_snapshot stem now s0)) = true ->
+  exists s' ms d,
+    backup SnapIdle stem now base None s0 = Some (s', ms) /\
+    restore_all base empty_dshard ms = Some d /\
+    forall k lo hi asc, dshard_read d k lo hi asc = shard_read s k lo hi asc.
+Proof.
+  intros stem0 stem now0 now base s s0 Hwf.
+  destruct (restore_backup_eq_lemma stem now base s0 Hwf) as (s' & ms & d & Hb & Hr & Hq).
+  exists s', ms, d. split; [exact Hb|]. split; [exact Hr|].
+  intros k lo hi asc. rewrite Hq. unfold s0. apply write_snapshot_read.
+Qed.
+Print Assumptions backup_waits_for_snapshot_in_flight.
+
+(* why the wait matters (the pinned tree's finding c18-backup-busy-skips-cache, repaired by the
+   mutex): if the snapshotter could stay busy for all attempts, Backup would proceed without the
+   cache and the copy would lack acknowledged points *)
 Theorem restore_backup_eq_busy_refuted :
   exists s stem now base s' ms d,
     backup SnapBusy stem now base None s = Some (s', ms) /\
